@@ -1,5 +1,6 @@
 import GoPipeline.Model.Parse
 import GoPipeline.Model.Marshal
+import GoPipeline.Model.MarshalY
 import GoPipeline.Driver.Util
 namespace GoPipeline.DriverParse
 open GoPipeline GoPipeline.Pipe GoPipeline.Parse GoPipeline.Marshal
@@ -27,6 +28,21 @@ mutual
     | v => v
 end
 
+-- What re-decoding the YAML text yields, with every mapping level sorted by key (the harness sorts the
+-- re-decoded real output the same way: key order at struct levels is not compared here, C08 covers order):
+-- integral floats come back as integers (yaml.v3 writes 5.0 as `5`); timestamps stay timestamps.
+mutual
+  partial def yamlViewSorted : Val → Val
+    | .float lit =>
+      match lit.splitOn "|" with
+      | g :: _ => if isIntLit g then (match g.toInt? with | some i => .int i | none => .float lit) else .float lit
+      | _ => .float lit
+    | .seq xs => .seq (xs.map yamlViewSorted)
+    | .omap kvs => .omap (Marshal.umapOf (kvs.map fun (k, v) => (k, yamlViewSorted v)))
+    | .umap kvs => .omap (Marshal.umapOf (kvs.map fun (k, v) => (k, yamlViewSorted v)))
+    | v => v
+end
+
 def step (_ : Unit) (line : List Char) : Unit × String :=
   let (op, rest) := splitOp line
   match op, parseArgs rest with
@@ -45,6 +61,13 @@ def step (_ : Unit) (line : List Char) : Unit × String :=
       match mPipeline p with
       | .error _ => ((), "err")
       | .ok v => ((), escapeStr ("ok " ++ Val.enc (jsonView v)))
+  | "normalformy", some [v] =>
+    match parsePipeline v with
+    | .error _ => ((), "hard")
+    | .ok (p, _) =>
+      match MarshalY.yPipeline p with
+      | .error _ => ((), "err")
+      | .ok v => ((), escapeStr ("ok " ++ Val.enc (yamlViewSorted v)))
   | _, _ => ((), "bad-op")
 
 end GoPipeline.DriverParse
